@@ -12,5 +12,6 @@ CONSTANTS
  AllowWith = FALSE
  AllowVars = FALSE
  MaxUses = 1
-INVARIANTS CaptureFree NoCollision PublicUnchanged NoReserved WithOwn WithCross Emit
+ RestoreOwn = FALSE
+INVARIANTS FlagAsMeant StackDepth CaptureFree NoCollision PublicUnchanged NoReserved WithOwn WithCross Emit
 CHECK_DEADLOCK FALSE
